@@ -1,6 +1,6 @@
 (* C13 -- client addresses in ECS are consumed, never forwarded upstream.
    Theorems only. *)
-From NX Require Import Bytes Wire Reply Query WireFacts QueryFacts.
+From NX Require Import Bytes Wire Reply Query WireFacts QueryFacts EcsWhole EcsParse.
 Open Scope Z_scope.
 
 (* rewriting an ECS option never changes the length of the query ... *)
@@ -47,6 +47,36 @@ Print Assumptions C13_payload_len.
 Theorem C13_total : forall payload, okb payload -> exists p', upstream_payload payload = Ok p'.
 Proof. exact upstream_payload_total. Qed.
 Print Assumptions C13_total.
+
+(* the whole option loop of query.parse on one OPT record: for any number of options in any order
+   lying one after the other in the payload (seq_ok), every address-carrying ECS option (code 8,
+   family 1 or 2, at least 8 data bytes, shorter than 256) is inert afterwards -- code 0xFFFF, all
+   data bytes zero -- and no byte outside those options has changed *)
+Theorem C13_whole_record : forall os q q' lo,
+  okb (q_payload q) -> 0 <= lo -> seq_ok (q_payload q) lo os ->
+  (forall o, In o os -> is_addr_ecs o = true -> len (o_data o) < 256) ->
+  apply_opts os q = Ok q' ->
+  (forall o, In o os -> is_addr_ecs o = true -> scrubbed (q_payload q') o) /\
+  (forall j, outside os j -> nth j (q_payload q') 0 = nth j (q_payload q) 0) /\
+  (forall j, Z.of_nat j < lo -> nth j (q_payload q') 0 = nth j (q_payload q) 0).
+Proof. exact apply_opts_whole. Qed.
+Print Assumptions C13_whole_record.
+
+(* the property on what the upstream receives, for every client byte string: with os the options
+   of the OPT record that query.parse reaches (find_opts: header, question, skipped sections, first
+   OPT in the additional section -- the layout hypothesis seq_ok is PROVED for them, it is not
+   assumed), the payload handed to the upstream has the same length, every address-carrying ECS
+   option among them is inert in it, and every byte outside those options is the client's.  The
+   one hypothesis left (options shorter than 256 bytes) is the limit of the in-place rewrite in
+   the code, which reads the option length from a single byte (reported in DESIGN 11.3). *)
+Theorem C13_upstream : forall payload up, okb payload -> upstream_payload payload = Ok up ->
+  exists os, find_opts payload = Ok os /\
+    len up = len payload /\
+    ((forall o, In o os -> is_addr_ecs o = true -> len (o_data o) < 256) ->
+     (forall o, In o os -> is_addr_ecs o = true -> scrubbed up o) /\
+     (forall j, outside os j -> nth j up 0 = nth j payload 0)).
+Proof. exact upstream_payload_scrubbed. Qed.
+Print Assumptions C13_upstream.
 
 (* non-vacuity: a query with ECS 1.2.3.4/32 -- the address is taken as the
    client's identity and the option leaves the host as code 0xFFFF, zero data *)
